@@ -305,6 +305,66 @@ Theorem C09_vertex_total_partial :
 Proof. exact vertex_total_partial_lemma. Qed.
 Print Assumptions C09_vertex_total_partial.
 
+(* the premise set of C09_vertex_total_partial is jointly satisfiable: an instance over binary64 with the REAL cost
+   kernels of the track fit and of the vertex fit (coq/Recon/Helix.v), closest_t, three_template_points, beamline_clusters,
+   find_vertices; TOY parts (listed in coq/Signal/VertexInst.v): software libm, the simplex prober mini_nm instead of
+   argmin, table-driven SpacePoint::try_from / Hough bins / distance, constant initial guess of the track fit, filters that
+   accept every track, identity sort, bit-pattern equality of tracks.  The event has 26 points on two helices and one
+   rejected avalanche; it leads to 2 clusters of 13 points, 2 tracks and one vertex. *)
+From AG Require Signal.VertexInst Signal.VertexInst_proofs.
+Example C09_vertex_premises_satisfiable :
+  let cluster := VertexInst.VI.cluster in let fit := VertexInst.VI.fit in
+  (* C15 *) (forall p, NoDup (VertexInst.VI.bins p)) /\
+  (* Z1 *) (forall a, In a VertexInst.VI.avs -> VertexInst.VI.sp_of a <> Panic) /\
+  (* N2 *) (forall cl c, vertex_clusters VertexInst.VI.sp_of cluster VertexInst.VI.avs = Ok cl -> In c cl ->
+              forall a b p, In a c -> In b c -> In p c ->
+              PrimFloat.is_nan (Fit.dev float N VertexInst.VI.p_r PrimFloat.sub PrimFloat.abs
+                                  (VertexInst.VI.half (VertexInst.VI.p_r a + VertexInst.VI.p_r b)) p) = false) /\
+  (* N3e *) (forall cl c, vertex_clusters VertexInst.VI.sp_of cluster VertexInst.VI.avs = Ok cl -> In c cl ->
+              forall s, VertexInst.VI.fit_simplex c = Ok s ->
+              forall p, In p (Fit.asked (VertexInst.VI.cost c) (VertexInst.VI.tree s)) ->
+              exists y, VertexInst.VI.cost c p = Ok y /\ VertexInst.VI.good y) /\
+  (* N4e *) (forall cl c, vertex_clusters VertexInst.VI.sp_of cluster VertexInst.VI.avs = Ok cl -> In c cl ->
+              forall s, VertexInst.VI.fit_simplex c = Ok s -> Fit.wf_strategy VertexInst.VI.good 6 [] (VertexInst.VI.tree s)) /\
+  (* V1 *) (forall trs, vertex_tracks VertexInst.VI.sp_of cluster fit VertexInst.VI.avs = Ok trs ->
+              forall a b, In a trs -> In b trs -> Fit.fcmp_prim (VertexInst.VI.t_zb a) (VertexInst.VI.t_zb b) <> None) /\
+  (* V2bc *) (forall trs, vertex_tracks VertexInst.VI.sp_of cluster fit VertexInst.VI.avs = Ok trs ->
+              forall bc a b, VertexInst.VI.beamline_clusters (filter VertexInst.VI.is_primary trs) = Ok bc -> In a bc -> In b bc ->
+              Fit.fcmp_prim (VertexInst.VI.sumF (map VertexInst.VI.t_rad (fst a)))
+                            (VertexInst.VI.sumF (map VertexInst.VI.t_rad (fst b))) <> None) /\
+  (* V3e *) (forall trs, vertex_tracks VertexInst.VI.sp_of cluster fit VertexInst.VI.avs = Ok trs ->
+              forall ts mz s, VertexInst.VI.vertex_best trs = Ok (Some (ts, mz)) ->
+              Fit.initial_simplex float Fit.B64.bump (VertexInst.VI.vguess mz) = Ok s ->
+              forall p, In p (Fit.asked (VertexInst.VI.vcost ts) (VertexInst.VI.tree s)) ->
+              exists y, VertexInst.VI.vcost ts p = Ok y /\ VertexInst.VI.good y) /\
+  (* V4e *) (forall trs, vertex_tracks VertexInst.VI.sp_of cluster fit VertexInst.VI.avs = Ok trs ->
+              forall ts mz s, VertexInst.VI.vertex_best trs = Ok (Some (ts, mz)) ->
+              Fit.initial_simplex float Fit.B64.bump (VertexInst.VI.vguess mz) = Ok s ->
+              Fit.wf_strategy VertexInst.VI.good 3 [] (VertexInst.VI.tree s)) /\
+  (* V5 *) (forall t, VertexInst.VI.teq t t = true) /\
+  (forall a b, VertexInst.VI.teq a b = true -> VertexInst.VI.teq b a = true) /\
+  (forall a b c, VertexInst.VI.teq a b = true -> VertexInst.VI.teq b c = true -> VertexInst.VI.teq a c = true).
+Proof.
+  exact (conj VertexInst_proofs.VI_proofs.bins_nodup (conj VertexInst_proofs.VI_proofs.Z1_ok
+        (conj VertexInst_proofs.VI_proofs.N2_ok (conj VertexInst_proofs.VI_proofs.N3_ok
+        (conj VertexInst_proofs.VI_proofs.N4_ok (conj VertexInst_proofs.VI_proofs.V1_ok
+        (conj VertexInst_proofs.VI_proofs.V2_ok (conj VertexInst_proofs.VI_proofs.V3_ok
+        (conj VertexInst_proofs.VI_proofs.V4_ok (conj VertexInst_proofs.VI_proofs.teq_refl
+        (conj VertexInst_proofs.VI_proofs.teq_sym VertexInst_proofs.VI_proofs.teq_trans))))))))))).
+Qed.
+(* ... hence the theorem applies to it (the remaining premises - (N1) for binary64, the tolerance, the identity sort -
+   are discharged in VertexInst_proofs.vertex_total), and the model does run to a vertex *)
+Example C09_vertex_instance :
+  exists v, vertex_res VertexInst.VI.sp_of VertexInst.VI.cluster VertexInst.VI.fit VertexInst.VI.find
+              (Ok VertexInst.VI.avs) = Ok v.
+Proof. exact VertexInst_proofs.VI_proofs.vertex_total. Qed.
+Example C09_vertex_instance_runs :
+  match vertex_res VertexInst.VI.sp_of VertexInst.VI.cluster VertexInst.VI.fit VertexInst.VI.find (Ok VertexInst.VI.avs)
+  with Ok (Some _) => true | _ => false end = true
+  /\ map (@length N) VertexInst_proofs.VI_proofs.the_clusters = [13; 13]%nat
+  /\ length VertexInst_proofs.VI_proofs.the_tracks = 2%nat.
+Proof. exact VertexInst_proofs.VI_proofs.runs. Qed.
+
 (* the hypotheses are satisfiable on a non-trivial value, and the model is not vacuously total *)
 Example C09_avalanches_hypotheses_satisfiable :
   faer_shape solve_pad /\
